@@ -277,8 +277,108 @@ def _is_const(j, name=None):
     return j[0] == 'c' and (name is None or j[1] == name)
 
 
-def root_cause(sub, status):
+CMP50 = ('member', 'subset', 'less_eq', 'less', 'greater_eq', 'greater')
+UNARY = ('neg', 'uminus', 'Union', 'Inter')
+
+
+def _op_head(j):
+    """(name, nargs) if j is a constant applied to arguments, else (None, 0)."""
+    head, args = L.strip_app(j)
+    if head[0] == 'c':
+        return head[1], len(args)
+    return None, 0
+
+
+def _is_cmp50(j):
+    nm, n = _op_head(j)
+    if n != 2:
+        return False
+    if nm in CMP50:
+        return True
+    if nm == 'equals':
+        head, _ = L.strip_app(j)
+        return head[2][2] != BOOL
+    return False
+
+
+def _marks_vs_shown(thname, sub, text):
+    """How many constants / binders infer_printed_type marks for a type annotation, versus how many annotations the
+    text shows.  Only used to NAME the root cause of an already established failure."""
+    from copy import copy
+    from syntax import infertype
+    try:
+        use_theory(thname)
+        t = copy(codec.term_dec(sub))
+        infertype.infer_printed_type(t)
+    except Exception:
+        return None
+    marks = [0]
+
+    def rec(t):
+        if hasattr(t, 'print_type'):
+            marks[0] += 1
+        if t.is_comb():
+            rec(t.fun)
+            rec(t.arg)
+        elif t.is_abs():
+            rec(t.body)
+    rec(t)
+    return marks[0], (text or '').count('::')
+
+
+def _binary_value(j):
+    if j[0] == 'c' and j[1] == 'zero':
+        return 0
+    if j[0] == 'c' and j[1] == 'one':
+        return 1
+    nm, n = _op_head(j)
+    if nm in ('bit0', 'bit1') and n == 1:
+        v = _binary_value(j[2])
+        if v is None:
+            return None
+        return 2 * v + (1 if nm == 'bit1' else 0)
     return None
+
+
+def root_cause(thname, sub, r):
+    """Name of the known root cause exhibited by the minimal failing subterm `sub` (None if unknown).  One name per
+    repair: see the triage notes in the C07 report."""
+    nm, n = _op_head(sub)
+    head, args = L.strip_app(sub)
+    if (nm in UNARY or nm in L.BINDERS) and n >= 2:
+        return 'unary-operator-or-binder-overapplied'
+    for a in args:
+        if _op_head(a) == ('of_nat', 1):
+            v = _binary_value(a[2])
+            if v is not None and v < 2:
+                return 'of_nat-0-or-1-treated-as-atom'
+    if nm == 'Char' and n == 1:
+        return 'char-literal-not-in-grammar'
+    if nm == 'String' and n == 1:
+        return 'string-literal-not-an-identifier'
+    if _is_cmp50(sub) and any(_is_cmp50(a) for a in args):
+        return 'priority-50-operators-nested'
+    if nm == 'append' and n == 2 and _op_head(args[1]) == ('cons', 2):
+        return 'append-cons-same-priority'
+    if nm is not None and n >= 1:
+        inner = [_op_head(a) for a in args]
+        if nm in ('uminus', 'Union', 'Inter') and n == 1 and inner[0][1] == 1 and inner[0][0] in UNARY:
+            return 'unary-operator-priority'
+        tight = (nm in L.TABLE_BINARY and nm not in ('conj', 'disj', 'implies') and not (nm == 'equals' and head[2][2] == BOOL))
+        if tight and n == 2 and ('neg', 1) in inner:
+            return 'unary-operator-priority'
+    if r.get('status') == 'reparse-fails' and r.get('exc') == 'TypeInferenceException':
+        mv = _marks_vs_shown(thname, sub, r.get('text'))
+        if mv is not None and mv[0] > mv[1]:
+            return 'type-annotation-mark-ignored'
+    return None
+
+
+def term_signature(status, r, feat):
+    """Known root cause: one signature whatever the failure class; unknown: failure class + computed feature."""
+    if '@' in feat:
+        return 'term:roundtrip:' + feat.replace('@', '')
+    return 'term:%s:%s' % (status if status not in ('print-raises', 'reparse-fails') else status + '-' + r.get('exc', ''), feat)
 
 
 def describe(sub):
@@ -328,11 +428,30 @@ def term_feature(thname, j, uni, hl, ll, status):
         feat = 'only-in-context'
     else:
         s, r, mode_ll = best
-        feat = root_cause(s, r['status']) or describe(s)
+        rc = root_cause(thname, s, r)
+        feat = ('@' + rc) if rc else describe(s)
         if mode_ll is not None:
             feat = 'line-break:' + feat
     _feature_memo[key] = feat
     return feat
+
+
+def components_ok(thname, js, uni, case, H):
+    """Composite objects (sequents, instantiations, proof items): a component that already fails as a term is reported
+    under the TERM signature (one signature per root cause) and the composite comparison is skipped."""
+    ok = True
+    seen = set()
+    for j in js:
+        k = harness.canon(j)
+        if k in seen:
+            continue
+        seen.add(k)
+        r = roundtrip_term(thname, j, uni, False, None)
+        if r['status'] != 'ok':
+            feat = term_feature(thname, j, uni, False, None, r['status'])
+            H.violation(term_signature(r['status'], r, feat), case, '(component of a %s) %s' % (case.get('kind'), r['detail']))
+            ok = False
+    return ok
 
 
 # ======================================================================================== kinds
@@ -374,12 +493,32 @@ def term_classes(j, text):
     return nontrivial, kl
 
 
+_worker_starts = {}
+MAX_WORKER_STARTS = 2
+
+
 def get_worker(thname):
+    """The fresh-process printing service for a theory (started at most MAX_WORKER_STARTS times per process; must be
+    started OUTSIDE any time_limit - see ensure_worker)."""
     w = _workers.get(thname)
-    if w is None:
-        w = L.Worker(thname)
-        _workers[thname] = w
+    if w is not None and w.proc is not None:
+        return w
+    if _worker_starts.get(thname, 0) >= MAX_WORKER_STARTS:
+        raise L.WorkerFailed('worker for %s could not be (re)started' % thname)
+    _worker_starts[thname] = _worker_starts.get(thname, 0) + 1
+    w = L.Worker(thname)
+    _workers[thname] = w
     return w
+
+
+def ensure_worker(thname):
+    try:
+        get_worker(thname)
+        return True
+    except (Timeout, RecursionError):
+        raise
+    except Exception:
+        return False
 
 
 @atexit.register
@@ -486,14 +625,15 @@ def check_term(case, H):
         if ran:
             try:
                 alone = get_worker(thname).ask({'t': j, 'unicode': uni, 'highlight': hl, 'line_length': ll})
+            except (Timeout, RecursionError):
+                raise
             except Exception:
                 alone = {}
             if 'text' in alone and alone['text'] != r.get('text'):
                 feat = 'after-history'
         if feat is None:
             feat = term_feature(thname, j, uni, hl, ll, status)
-        sig = 'term:%s:%s' % (status if status not in ('print-raises', 'reparse-fails') else status + '-' + r.get('exc', ''), feat)
-        H.violation(sig, case, r['detail'])
+        H.violation(term_signature(status, r, feat), case, r['detail'])
         kl.append('!term:' + status)
     if case.get('fresh') and r.get('text') is not None:
         try:
@@ -629,14 +769,6 @@ def compare_thm(th2, jth):
 
 
 def thm_feature(thname, jth, uni):
-    """Does one of the formulas fail as a term already?"""
-    for j in list(jth['hyps']) + [jth['prop']]:
-        try:
-            r = roundtrip_term(thname, j, uni, False, None)
-        except (Timeout, RecursionError):
-            continue
-        if r['status'] != 'ok':
-            return 'as-term:' + term_feature(thname, j, uni, False, None, r['status'])
     return 'hyps=%d' % min(len(jth['hyps']), 2)
 
 
@@ -654,14 +786,20 @@ def check_thm(case, H):
     if ll:
         kl.append('thm:line_length')
     text = None
+    comp_ok = components_ok(thname, js, uni, case, H)
+    if not comp_ok:
+        kl.append('!thm:component-term-fails')
     try:
         text, lines = L.do_print('thm', th, uni, hl, ll)
     except (Timeout, RecursionError):
         raise
     except Exception as e:
-        feat = 'line_length' if ll else thm_feature(thname, jth, uni)
-        H.violation('thm:print-raises-%s:%s' % (exc_name(e), feat), case, '%s: %s' % (exc_name(e), str(e)[:300]))
-    if text is not None:
+        if comp_ok and ll:
+            H.violation('thm:print-raises:line_length-set', case, '%s: %s' % (exc_name(e), str(e)[:300]))
+        elif comp_ok:
+            H.violation('thm:print-raises-%s:%s' % (exc_name(e), thm_feature(thname, jth, uni)), case,
+                        '%s: %s' % (exc_name(e), str(e)[:300]))
+    if text is not None and comp_ok:
         vs, svs = context_of(js)
         try:
             with context.fresh_context(vars=vs, svars=svs), _quiet():
@@ -743,20 +881,48 @@ def compare_tyinst(ty2, jty):
 def inst_feature(thname, jinst, uni):
     if not jinst:
         return 'empty'
-    for k in sorted(jinst):
-        try:
-            r = roundtrip_term(thname, jinst[k], uni, False, None)
-        except (Timeout, RecursionError):
-            continue
-        if r['status'] != 'ok':
-            return 'as-term:' + term_feature(thname, jinst[k], uni, False, None, r['status'])
     return 'entries=%d' % min(len(jinst), 2)
 
 
-def check_inst(case, H):
+def inst_roundtrip(thname, kind, jobj, obj, js, uni, hl):
+    """Print an Inst / TyInst the way export_proof_item does (print_str_args) and parse it back.
+    Returns (text, problem) with problem = None | (signature, detail)."""
     from logic import context
     from syntax import parser, printer
     from syntax.settings import global_setting
+    rule = 'substitution' if kind == 'inst' else 'subst_type'
+    use_theory(thname)
+
+    def sig(cls):
+        if not jobj:
+            return 'inst:roundtrip:empty-instantiation-printed-as-empty-string'
+        if kind == 'tyinst':
+            return 'tyinst:roundtrip:printed-with-str-not-in-grammar'
+        return 'inst:%s:entries=%d' % (cls, min(len(jobj), 2))
+    try:
+        with global_setting(unicode=uni, highlight=hl, line_length=None):
+            out = printer.print_str_args(rule, obj, None)
+        text, _ = L.flatten(out)
+    except (Timeout, RecursionError):
+        raise
+    except Exception as e:
+        return None, (sig('print-raises-' + exc_name(e)), 'print_str_args raises %s: %s' % (exc_name(e), str(e)[:300]))
+    vs, svs = context_of(js)
+    try:
+        with context.fresh_context(vars=vs, svars=svs), _quiet():
+            obj2 = parser.parse_inst(text) if kind == 'inst' else parser.parse_tyinst(text)
+        ok = compare_inst(obj2, jobj) if kind == 'inst' else compare_tyinst(obj2, jobj)
+        if not ok:
+            return text, (sig('differs'), 'printed %r; parsed back as %r' % (text, dict(obj2)))
+    except (Timeout, RecursionError):
+        raise
+    except Exception as e:
+        return text, (sig('reparse-fails-' + exc_name(e)), 'printed %r; parse raises %s: %s' % (
+            text, exc_name(e), str(getattr(e, 'err', e))[:200]))
+    return text, None
+
+
+def check_inst(case, H):
     thname = case.get('theory')
     if thname not in _S:
         raise CaseInvalid('theory')
@@ -766,37 +932,19 @@ def check_inst(case, H):
     if kind == 'inst':
         jobj = case.get('inst')
         obj, js = decode_inst(thname, jobj)
-        rule = 'substitution'
     else:
         jobj = case.get('tyinst')
         obj = decode_tyinst(thname, jobj)
         js = []
-        rule = 'subst_type'
     kl = [kind, '%s:entries=%d' % (kind, min(len(jobj), 3))] + ([kind + ':unicode'] if uni else []) + ([kind + ':highlight'] if hl else [])
-    feat = (lambda: inst_feature(thname, jobj, uni)) if kind == 'inst' else (lambda: 'empty' if not jobj else 'entries')
     text = None
-    try:
-        with global_setting(unicode=uni, highlight=hl, line_length=None):
-            out = printer.print_str_args(rule, obj, None)
-        text, _ = L.flatten(out)
-    except (Timeout, RecursionError):
-        raise
-    except Exception as e:
-        H.violation('%s:print-raises-%s:%s' % (kind, exc_name(e), ('highlight' if hl else feat())), case,
-                    '%s: %s' % (exc_name(e), str(e)[:300]))
-    if text is not None:
-        vs, svs = context_of(js)
-        try:
-            with context.fresh_context(vars=vs, svars=svs), _quiet():
-                obj2 = parser.parse_inst(text) if kind == 'inst' else parser.parse_tyinst(text)
-            ok = compare_inst(obj2, jobj) if kind == 'inst' else compare_tyinst(obj2, jobj)
-            if not ok:
-                H.violation('%s:differs:%s' % (kind, feat()), case, 'printed %r; parsed back as %r' % (text, dict(obj2)))
-        except (Timeout, RecursionError):
-            raise
-        except Exception as e:
-            H.violation('%s:reparse-fails-%s:%s' % (kind, exc_name(e), feat()), case,
-                        'printed %r; parse raises %s: %s' % (text, exc_name(e), str(getattr(e, 'err', e))[:200]))
+    if components_ok(thname, js, uni, case, H):
+        text, problem = inst_roundtrip(thname, kind, jobj, obj, js, uni, hl)
+        if problem:
+            H.violation(problem[0], case, problem[1])
+            kl.append('!%s:fails' % kind)
+    else:
+        kl.append('!%s:component-term-fails' % kind)
     H.case(case, len(jobj) >= 1, kl, key='%s|%s|%s' % (kind, thname, text if text is not None else harness.canon(jobj)))
 
 
@@ -932,17 +1080,29 @@ def check_item(case, H):
          (['item:with-th'] if th is not None else [])
 
     def feature():
-        for j in js:
-            try:
-                r = roundtrip_term(thname, j, uni, False, None)
-            except (Timeout, RecursionError):
-                continue
-            if r['status'] != 'ok':
-                return 'as-term:' + term_feature(thname, j, uni, False, None, r['status'])
         if kind in ('inst', 'str,inst') and not (jargs[1] if kind == 'inst' else jargs[1][1][1]):
             return 'args=%s:empty' % kind
         return 'args=' + kind
     data = None
+    comp_ok = components_ok(thname, js, uni, case, H)
+    if not comp_ok:
+        kl.append('!item:component-term-fails')
+    if comp_ok:
+        # an Inst / TyInst argument that fails on its own is reported under ITS signature (one per root cause)
+        parts = [jargs] if kind in ('inst', 'tyinst') else (jargs[1] if jargs is not None and jargs[0] == 'tuple' else [])
+        for part in parts:
+            if part[0] in ('inst', 'tyinst'):
+                if part[0] == 'inst':
+                    pobj, pjs = decode_inst(thname, part[1])
+                else:
+                    pobj, pjs = decode_tyinst(thname, part[1]), []
+                _, problem = inst_roundtrip(thname, part[0], part[1], pobj, pjs, uni, False)
+                if problem is None and hl:
+                    _, problem = inst_roundtrip(thname, part[0], part[1], pobj, pjs, uni, True)
+                if problem:
+                    H.violation(problem[0], case, '(argument of a proof item) ' + problem[1])
+                    kl.append('!item:instantiation-argument-fails')
+                    comp_ok = False
     try:
         with global_setting(unicode=uni, highlight=hl, line_length=None):
             exported = printer.export_proof_item(item)
@@ -955,9 +1115,10 @@ def check_item(case, H):
     except (Timeout, RecursionError):
         raise
     except Exception as e:
-        H.violation('item:export-raises-%s:%s' % (exc_name(e), feature() + (':highlight' if hl and kind == 'tyinst' else '')), case,
-                    '%s: %s' % (exc_name(e), str(e)[:300]))
-    if data is not None:
+        if comp_ok:
+            H.violation('item:export-raises-%s:%s' % (exc_name(e), feature()), case,
+                        '%s: %s' % (exc_name(e), str(e)[:300]))
+    if data is not None and comp_ok:
         vs, svs = context_of(js)
         try:
             with context.fresh_context(vars=vs, svars=svs), _quiet():
@@ -990,8 +1151,10 @@ def run_case(case, H):
     if not isinstance(case, dict):
         raise CaseInvalid('case')
     k = case.get('kind')
+    if k == 'term' and (case.get('fresh') or case.get('prefix')) and case.get('theory') in _S:
+        ensure_worker(case['theory'])      # outside the time limit: start-up takes seconds
     try:
-        with time_limit(30):
+        with time_limit(60):
             if k == 'term':
                 check_term(case, H)
             elif k == 'type':
@@ -1006,6 +1169,7 @@ def run_case(case, H):
                 raise CaseInvalid('kind')
     except Timeout:
         H.inconc('timeout')
+        H.sample('!timeout', case)
     except RecursionError:
         H.inconc('recursion')
     except (KeyError, IndexError, TypeError, AttributeError) as e:
@@ -1265,7 +1429,7 @@ def hist_strategy(thname):
             else:
                 prefix.append({'op': 'print', 't': draw(rand_term(thname, max_fuel=2)), 'theory': thname, 'unicode': puni})
         return {'kind': 'term', 'theory': thname, 't': j, 'unicode': uni, 'highlight': hl, 'line_length': ll,
-                'prefix': prefix, 'fresh': True}
+                'prefix': prefix, 'fresh': draw(st.sampled_from([True, False, False]))}
     return s()
 
 
@@ -1324,7 +1488,7 @@ def shards(tier):
             out.append({'kind': kind, 'n': c, 'i': i})
     # (d) history
     for th in THEORIES:
-        out.append({'kind': 'hist', 'theory': th, 'n': (120 if quick else 1200), 'i': 0})
+        out.append({'kind': 'hist', 'theory': th, 'n': (150 if quick else 1500), 'i': 0})
     return out
 
 
@@ -1375,9 +1539,9 @@ def run_shard(desc, seed, tier, H):
         harness.hyp_run(strat, body, desc['n'], seed)
     elif kind == 'thm':
         def mk(th):
-            return st.tuples(thm_strategy(th), settings_strategy(False), st.integers(0, 30)).map(
+            return st.tuples(thm_strategy(th), settings_strategy(False), st.sampled_from([None] * 39 + [40])).map(
                 lambda p: {'kind': 'thm', 'theory': th, 'hyps': p[0]['hyps'], 'prop': p[0]['prop'], 'unicode': p[1][0],
-                           'highlight': p[1][1], 'line_length': (40 if p[2] == 0 else None)})
+                           'highlight': p[1][1], 'line_length': p[2]})
         harness.hyp_run(st.sampled_from(THEORIES).flatmap(mk), body, desc['n'], seed)
     elif kind == 'inst':
         def mk(th):
